@@ -160,7 +160,13 @@ class ExposureMonitor(Monitor):
         return out
 
     def _tol(self, recs):
-        return 0.005 * sum(r["sm"] for r in recs) + 0.01 * max(1, len(recs))
+        t = 0.005 * sum(r["sm"] for r in recs) + 0.01 * max(1, len(recs))
+        for r in recs:
+            # a starting-price LAY is given as a liability; its stake is liability / (SP - 1) rounded to 2dp, so the
+            # liability of the fill differs from the requested one by up to 0.005 x (SP - 1)
+            if r["side"] == "LAY" and (r["type"] in ("LIMIT_ON_CLOSE", "MARKET_ON_CLOSE") or (r["reconciled"] and getattr(r["o"].order_type, "persistence_type", None) == "MARKET_ON_CLOSE")):
+                t += sum(0.005 * max(0.0, f[0] - 1.0) for f in r["frags"])
+        return t
 
     def on_control_error(self, control, order, error):
         self.last_refusal = (control.NAME, str(error))
